@@ -253,6 +253,7 @@ def run(ctx):
             bad = tables.shadow_violations(kws)
             ctx.ob("T-SHADOW", "%s chain %s" % (name, chain), not bad, "shadowed: %s" % bad)
 
+    tables.rule_T_IDENT(ctx, T)
     # ---- clause 3: ordered-alternative conflict --------------------------------------
     x_conflict(ctx, T)
 
@@ -284,6 +285,16 @@ def run(ctx):
     parses = hir.find_calls(pi["body"], "parse")
     ok = parses and all((c.get("def") or "").endswith("str>::parse") and "isize" in (c.get("ty") or "") for c in parses)
     ctx.ob("F-DISPLAY", "parse_isize re-reads via str::parse::<isize>", bool(ok), "%s" % [(c.get("def"), c.get("ty")) for c in parses])
+    # char class of the integer scanner covers what Display for isize emits: digits and '-'
+    digit = any(c.get("def", "").endswith("is_ascii_digit") for c in hir.find_calls(pi["body"], "is_ascii_digit"))
+    lits = set()
+    for n in hir.walk(pi["body"]):
+        if n.get("k") == "Binary" and n["op"] == "==":
+            for side in (n["l"], n["r"]):
+                sd = strip(side)
+                if sd["k"] == "Lit" and sd["lit"]["lit"] == "char":
+                    lits.add(sd["lit"]["v"])
+    ctx.ob("F-DISPLAY", "integer scanner accepts digits and '-'", digit and "-" in lits, "digit test: %s, char literals: %s" % (digit, sorted(lits)))
 
     ctx.undecided = ["that parsed and original values compare equal for all values (depends on C06 and on run-time data)",
                      "nesting-dependent ambiguity; name well-formedness side conditions"]
